@@ -132,6 +132,14 @@ func genC08Plan(r *zsim.Rng) *sysPlan {
 	nev := r.Range(1, 22)
 	for i := 0; i < nev; i++ {
 		ev := sysEvent{DelayMs: genDelay(r), Kind: "keys"}
+		if r.Chance(1, 12) {
+			// a bracketed paste that carries control characters: the query is edited in place and may end up as
+			// long as it was before the paste
+			payload := pick(r, "\x04b", "\x01\x04a", "\x7fb", "\x01\x04b\x05", "a\x7fb", "\x17ab")
+			p.Events = append(p.Events, sysEvent{Kind: "keys", Keys: pick(r, "ctrl-a", "a", "b", "ctrl-e")},
+				sysEvent{Kind: "raw", Raw: []byte("\x1b[200~" + payload + "\x1b[201~"), DelayMs: genDelay(r)})
+			continue
+		}
 		if evBinds && r.Chance(1, 3) {
 			switch r.Intn(3) {
 			case 0:
